@@ -260,11 +260,11 @@ fn parse_op(s: &str) -> Option<Op> {
     }
 }
 
-/// page size ∈ {4,8,16,32,64} KiB, 16 ≤ cache ≤ 60000, 1 ≤ pool ≤ 16, 3 ≤ min keys ≤ 8 (`Btree::new` asserts ≥ 3), 1 ≤ siblings ≤ 4
+/// page size ∈ {4,8,16,32,64} KiB, 16 ≤ cache ≤ 1000000, 1 ≤ pool ≤ 16, 3 ≤ min keys ≤ 8 (`Btree::new` asserts ≥ 3), 1 ≤ siblings ≤ 4
 fn parse_cfg(ps: &str, cache: &str, pool: &str, mk: &str, sib: &str) -> Option<Cfg> {
     let c = Cfg {
         page_size: canon_usize(ps, 65536)?,
-        cache: canon_usize(cache, 60_000)?,
+        cache: canon_usize(cache, 1_000_000)?,
         pool: canon_usize(pool, 16)?,
         min_keys: canon_usize(mk, 8)?,
         siblings: canon_usize(sib, 4)?,
@@ -766,12 +766,15 @@ struct Gen<'a> {
 
 const PAGE_SIZES: [usize; 4] = [4096, 8192, 16384, 65536];
 const CACHES: [usize; 3] = [64, 512, 10000];
+const WIDE_CACHES: [usize; 5] = [65535, 65536, 65538, 131072, 200000];
 
 fn gen_cfg(rng: &mut Rng) -> String {
     let ps = *rng.pick(&PAGE_SIZES);
     // 4 KiB pages with a minimum key count of 4 or 5 are the region of the catalog-overflow finding (cfg/C09.py): kept rarer
     let mk = if ps == 4096 && rng.chance(2, 3) { 3 } else { rng.range(3, 5) };
-    format!("{} {} {} {} {}", ps, rng.pick(&CACHES), rng.range(1, 4), mk, rng.range(1, 3))
+    // the header keeps the cache size in 16 bits: sizes at and beyond that width are part of "every cache size"
+    let cache = if rng.chance(1, 6) { *rng.pick(&WIDE_CACHES) } else { *rng.pick(&CACHES) };
+    format!("{} {} {} {} {}", ps, cache, rng.range(1, 4), mk, rng.range(1, 3))
 }
 
 impl<'a> Gen<'a> {
